@@ -96,9 +96,17 @@ class C16(Prop):
             solve["cfg"]["wrapper"] = "mosek"
             solve["env"] = {"mosek": "present"}
         if case == "accessors":
-            state = ["never", "none", "raised", "after-failed"][(idx // 7) % 4]
+            state = ["never", "none", "raised", "after-failed", "failed-after-success"][(idx // 7) % 5]
             plan["state"] = state
-            if state == "none":
+            if state == "failed-after-success":
+                # a solve succeeded, then a solve of the same object found no value: nothing may be readable
+                good = copy.deepcopy(solve)
+                good["out"] = "tau_good"
+                ops.append(good)
+                solve["peer"]["script"] = {"1": rng.choice([{"action": "status", "status": rng.choice(NOVALUE_STATUSES)},
+                                                            {"action": "raise"}])}
+                ops.append(solve)
+            elif state == "none":
                 st = rng.choice(NOVALUE_STATUSES)
                 solve["peer"]["script"] = {"1": {"action": "status", "status": st}}
                 ops.append(solve)
@@ -115,7 +123,7 @@ class C16(Prop):
                 for o in post:
                     if o["op"] in ("plin", "inner", "elin", "cons", "psd"):
                         ops.append({"op": "eval", "h": o["out"], "_kind": "built-after-failed-solve:" + o["op"]})
-            acc = accessor_ops(b, rng, with_generated=(state in ("none", "raised", "after-failed")))
+            acc = accessor_ops(b, rng, with_generated=(state in ("none", "raised", "after-failed", "failed-after-success")))
             for o, kind in acc:
                 o = dict(o)
                 if kind:
@@ -236,6 +244,8 @@ class C16(Prop):
                 val = out.get("value")
                 if out.get("status") == "ok" and val is not None:
                     had_success = True
+                elif out.get("ncalls") == 1 and (op.get("peer") or {}).get("script", {}).get("1"):
+                    had_success = False     # a solve that found no value invalidates what an earlier solve left
                 if exp == "none" and out.get("ncalls"):
                     judged += 1
                     cell("status", op["peer"]["script"]["1"]["status"], (out.get("transports") or ["?"])[0])
